@@ -676,6 +676,12 @@ def run_check(machine, tier, seed=None, runs=None, jobs=None):
                 "known": entry.get("id") if entry else None,
                 "actions": len(case["actions"]), "shrink_evals": sh.evals}
         reported.append(info)
+        if not ok and viol["cls"].endswith("/hang"):
+            # a wall-clock time-out that does not reproduce is load on the machine, not behaviour of the code
+            print("TIMEOUT-NOT-REPRODUCED property=%s replay=%s (run exceeded %ds once; replay finished: not a violation)"
+                  % (machine.pid, path, machine.run_timeout))
+            info["timeout_not_reproduced"] = True
+            continue
         if not ok:
             print("HARNESS-NONDETERMINISM property=%s class=%s replay=%s did not reproduce in a fresh process:\n%s"
                   % (machine.pid, viol["cls"], path, out[-1500:]))
